@@ -131,6 +131,14 @@ class SB:
 
     __hash__ = None
 
+    def _asint(self):
+        return SR(z3.If(self.t, z3.IntVal(1), z3.IntVal(0)))
+
+    def __add__(self, o):
+        return self._asint() + (o._asint() if isinstance(o, SB) else o)
+
+    __radd__ = __add__
+
     def __repr__(self):
         return "SB(%s)" % self.t
 
@@ -1535,6 +1543,8 @@ class Interp:
 
         if isinstance(base, np.ndarray) and base.dtype != object and (is_sym(v) or (isinstance(v, np.ndarray) and v.dtype == object)):
             raise Unsupported("symbolic value stored into a non-object numpy array (array was created outside the shim)")
+        if isinstance(idx, np.ndarray) and idx.dtype == object and idx.size and all(isinstance(x, (SB, bool, np.bool_)) for x in idx.reshape(-1)):
+            idx = np.array([bool(x) for x in idx.reshape(-1)], dtype=bool).reshape(idx.shape)  # forks on undecided entries
         if isinstance(idx, SR):
             idx = self.st.concretize(idx.t)
         if isinstance(idx, tuple) and any(isinstance(i, SR) for i in idx):
